@@ -28,8 +28,8 @@ ASSUMPTIONS = ["values whose reference error bound exceeds 1e-11 relative are no
 BUDGET = {"quick": (1600, 4), "thorough": (26000, 16)}
 
 
-def _cfg(tier, arrays=False):
-    return S.Cfg(max_items=12 if tier != "quick" else 7, depth=3 if tier != "quick" else 2, params=True, options=False,
+def _cfg(tier, arrays=False, tdm=False):
+    return S.Cfg(max_items=12 if tier != "quick" else 7, depth=3 if tier != "quick" else 2, params=True, options=False, tdm=tdm,
                  ascii_only=False, whole_array_odds=0 if arrays else 1, complex_coefficients=True, array_weight=4 if arrays else 1)
 
 
@@ -88,7 +88,9 @@ def _real_value():
 
 @st.composite
 def case(draw, tier):
-    script = draw(S.script(_cfg(tier, arrays=draw(st.integers(0, 3)) == 0)))      # a quarter of the templates is array-heavy
+    sel = draw(st.integers(0, 7))
+    # a quarter of the templates is array-heavy, an eighth is a tdm program (p-arrays by name, parameters spelt like them)
+    script = draw(S.script(_cfg(tier, arrays=sel in (0, 1), tdm=sel == 2)))
     info = param_slots(script)
     vals = {}
     for name in sorted(info):
